@@ -1,9 +1,11 @@
 package c04
 
 import (
+	"archive/zip"
 	"crypto/sha1"
 	"os"
 	"path/filepath"
+	"runtime"
 	"sort"
 	"strings"
 	"time"
@@ -203,6 +205,59 @@ var panel = []string{
 	"Pacific/Apia", "Pacific/Kiritimati", "Pacific/Kwajalein", "Pacific/Fakaofo",
 	// no transitions in the window: fixed offsets, some with :30 / :45
 	"Asia/Kolkata", "Asia/Tokyo", "Asia/Kabul", "Etc/GMT+5", "UTC",
+}
+
+// fallbackZoneNames: used only if no zone database can be enumerated.
+var fallbackZoneNames = []string{"NZ", "ROC", "ROK", "Cuba", "Turkey", "Zulu", "CET", "CST6CDT", "Navajo", "Canada/Pacific", "Chile/Continental",
+	"NZ-CHAT", "Etc/Zulu", "Universal", "UCT", "Australia/NSW", "UTC", "Asia/Tokyo", "America/New_York", "Europe/London", "Zulu", "Etc/GMT+5"}
+
+// everyZoneName lists every name (aliases included, no de-duplication) under
+// which the zone database that time.LoadLocation resolves offers a zone:
+// /usr/share/zoneinfo if present, else $GOROOT/lib/time/zoneinfo.zip, else a
+// fixed list. Only names that time.LoadLocation accepts are returned.
+func everyZoneName() (names []string, source string) {
+	var cand []string
+	if st, err := os.Stat(zoneinfoDir); err == nil && st.IsDir() {
+		source = zoneinfoDir
+		filepath.Walk(zoneinfoDir, func(p string, info os.FileInfo, err error) error {
+			if err != nil {
+				return nil
+			}
+			rel, _ := filepath.Rel(zoneinfoDir, p)
+			if info.IsDir() {
+				if rel == "posix" || rel == "right" {
+					return filepath.SkipDir
+				}
+				return nil
+			}
+			if rel == "localtime" || rel == "posixrules" || strings.Contains(rel, ".") {
+				return nil
+			}
+			cand = append(cand, rel)
+			return nil
+		})
+	} else if zr, err := zip.OpenReader(filepath.Join(runtime.GOROOT(), "lib", "time", "zoneinfo.zip")); err == nil {
+		source = "zoneinfo.zip"
+		for _, f := range zr.File {
+			if !strings.HasSuffix(f.Name, "/") {
+				cand = append(cand, f.Name)
+			}
+		}
+		zr.Close()
+	}
+	if len(cand) == 0 {
+		source, cand = "fixed list", fallbackZoneNames
+	}
+	sort.Strings(cand)
+	for i, n := range cand {
+		if i > 0 && cand[i-1] == n {
+			continue
+		}
+		if _, err := time.LoadLocation(n); err == nil {
+			names = append(names, n)
+		}
+	}
+	return names, source
 }
 
 // allZoneNames lists the distinct zones of the system database (one name per
